@@ -87,9 +87,11 @@ fn check_distribution_at(run: &Run, specs: &[StakeSpec], epoch: u64, label: &str
         // variant 1: all valid
         run.transition();
         let got = guard(|| sealed.confirm(proof.clone()).is_some());
-        let ratio = if 3 * present > 2 * total {
+        // (unbounded arithmetic: 3 x present and 2 x total leave 128 bits from 2^126.4 and 2^127 on)
+        let (p3, t2) = (num::BigUint::from(present) * 3u32, num::BigUint::from(total) * 2u32);
+        let ratio = if p3 > t2 {
             "above"
-        } else if 3 * present < 2 * total {
+        } else if p3 < t2 {
             "below"
         } else {
             "equal"
@@ -270,6 +272,18 @@ pub fn run(run: &Run) {
         0,
         "large".into(),
     ));
+    // voting power at the top of the 128-bit range: totals of 2^127 - 1, 2^127, 2^127 + 1 and 2^128 - 1, where three times the
+    // signers' power and twice the total no longer fit 128 bits (the total itself still does)
+    for (name, ws) in [
+        ("2^127-1", vec![(1u128 << 126) - 1, 1 << 126]),
+        ("2^127", vec![1u128 << 126, 1 << 126]),
+        ("2^127+1", vec![1u128 << 126, 1 << 126, 1]),
+        ("2^127-in-three", vec![(1u128 << 126) - 1, 1 << 125, (1 << 125) + 1]),
+        ("2^128-1", vec![1u128 << 127, (1 << 127) - 1]),
+        ("2^128-1-in-three", vec![(1u128 << 127) - 1, 1 << 126, 1 << 126]),
+    ] {
+        dists.push((ws.iter().enumerate().map(|(i, w)| StakeSpec { key: i as u8, weight: *w, e_start: 0, e_post_end: 2 }).collect(), 0, format!("total-{}", name)));
+    }
     run.set("distributions", json!(dists.len()));
     run.set("max_stakers", json!(max_n));
     run.set("weights", json!(["1", "2", "3"]));
